@@ -42,6 +42,26 @@ Theorem C16_string_only_filter : forall pat_sem fun_sem cfg sr ds,
 Proof. exact string_only_filter. Qed.
 Print Assumptions C16_string_only_filter.
 
+(* ... and for EVERY well-formed document: the selective parse under a string-only filter is exactly the matching
+   text runs of the document, in order.  A text run (Spec.StrainerSpec.text_runs) is a maximal sequence of
+   character-data chunks not interrupted by any tag — kept or dropped — or comment-like item: adjacent text
+   separated only by dropped tags is NOT merged; each run is stored the way the document level stores text. *)
+Theorem C16_string_only_filter_runs : forall pat_sem fun_sem cfg sr ds,
+  string_filter sr = true ->
+  zfeed pat_sem fun_sem (Some sr) cfg (brackets_f ds) = keep_runs pat_sem fun_sem sr (text_runs cfg [] ds).
+Proof. exact string_only_filter_runs. Qed.
+Print Assumptions C16_string_only_filter_runs.
+
+(* OPEN FINDING C16-string-filter-lost-context: against the full parse the statement fails once a dropped element
+   would have changed how its text is stored: <pre> \n </pre>, SoupStrainer(string=" \n ") keeps nothing *)
+Theorem C16_string_filter_context_refuted :
+  exists ds,
+    string_filter sr_ws = true /\
+    zfeed no_pat16 no_fun16 (Some sr_ws) html_cfg (brackets_f ds) <>
+    keep_strings no_pat16 no_fun16 sr_ws (zfeed no_pat16 no_fun16 None html_cfg (brackets_f ds)).
+Proof. exact string_filter_context_refuted. Qed.
+Print Assumptions C16_string_filter_context_refuted.
+
 (* a filter mixing both kinds of criteria keeps nothing *)
 Theorem C16_mixed_keeps_nothing : forall pat_sem fun_sem cfg sr ds,
   mixed_filter sr = true ->
